@@ -8,7 +8,7 @@ SIM=/verif/sim/target/release/sim
 if [ -n "${DET_PRIVATE_COPY:-}" ]; then cp $SIM /verif/sim/target/sim-det-copy && SIM=/verif/sim/target/sim-det-copy; fi
 D=$(mktemp -d /verif/sim/target/det.XXXX)
 bad=0; total=0
-for eng in srcsim lifesim histsim thrsim; do
+for eng in srcsim lifesim recsim histsim thrsim; do
   c=$CASES; [ "$eng" = lifesim ] && c=$((CASES/2)); [ "$eng" = thrsim ] && c=$((CASES/3))
   for s in $(seq 1 "$SEEDS"); do
     for w in 1 5 16; do
